@@ -65,7 +65,7 @@ CHECKS = {
          "About 520 (quick) / 2500 (thorough) generated type definitions: named and tuple structs and enums with unit, tuple and named variants, 1-3 fields over Entity, u32, String, nested derived types, tuple, array, a type parameter (instantiated with Entity and u32) and fields that skip conversion (with and without a forwarded serde attribute), repeated types in every position, widths 10-12 with position-identifying values, field names that coincide with identifiers of the generated code (data, ids, ...); for every value: convert_into must produce exactly the field-wise JSON computed by the generator, and JSON round trip + convert_from through a non-identity marker mapping must give the field-wise expected value; derive(Component): every storage attribute form x storage kind, generic and non-generic, the attribute before / between / after other attributes, global and relative paths inside a module that has its own specs::storage, checked by TypeId. A shape the derive no longer compiles is reported as a violation naming the type.",
          "DESIGN.md §4 C18"),
  "C20": ("mc-det", "differential exhaustive exploration: every history of the quick-bound explorations executed twice (in-process, with an unrelated world in between) and digests recomputed in fresh processes",
-         "Every history of the entity (E1), component (E2), lazy (E3), tracked-storage (hash-backed and dense kinds) and save/load explorations at reduced bounds, and every 3-entity save/load round trip with explicit marker ids, is executed twice in the same process — an unrelated world incl. caught destructor panics runs in between and the second execution follows unrelated allocations — and the complete transcripts (operation results, handles, join orders, event streams, serialised bytes, enabled operations, state keys) are compared; the folded transcript digests are recomputed in two fresh processes (new hash seeds, new address layout) and compared.",
+         "Every history of the entity (E1; plus a part with every three-element batch deletion, two live handles in front of a failing one included), component (E2), lazy (E3), tracked-storage (hash-backed and dense kinds) and save/load explorations at reduced bounds, and every 3-entity save/load round trip with explicit marker ids, is executed twice in the same process — an unrelated world incl. caught destructor panics runs in between and the second execution follows unrelated allocations — and the complete transcripts (operation results, handles, join orders, event streams, serialised bytes, enabled operations, state keys) are compared; the folded transcript digests are recomputed in two fresh processes (new hash seeds, new address layout) and compared.",
          "DESIGN.md §4 C20"),
 }
 
